@@ -154,7 +154,7 @@ func (fr *Frame) jsonUnmarshal(i *ssa.Call, args []Val, st *State, g Term) {
 		cur := x.load(a.P, st)
 		nv := x.fresh("junm", cur.Sort)
 		fr.store(a.P, nv, st, g, i.Pos())
-		x.jsonShape(nv, g, i)
+		x.jsonShape(nv, And(g, Eq(err, Term{"NoErr", SErr})), i)
 	case TV:
 		// an interface holding a pointer to tree data that lives in a cell field
 		if a.Origin != nil && a.T.Sort.Kind == KAny {
@@ -166,7 +166,7 @@ func (fr *Frame) jsonUnmarshal(i *ssa.Call, args []Val, st *State, g Term) {
 					cur := x.load(*a.Origin, st)
 					upd := Ite(And(is, Not(PIsNil(mk(c.Payload, c.Sel, a.T)))), mk(a.T.Sort, c.Name, PMk(c.Payload, nv)), cur)
 					fr.store(*a.Origin, x.define("junm", upd), st, g, i.Pos())
-					x.jsonShape(nv, g, i)
+					x.jsonShape(nv, And(g, Eq(err, Term{"NoErr", SErr})), i)
 				}
 			}
 			return
